@@ -24,7 +24,7 @@ def tlc_jobs(tier, seed):
         subst = dict(U2="U2Thorough")
     jobs.append(dict(tag=tier, module="MC_C01",
                      cfg=dict(constants=consts, subst=subst,
-                              invariants=["TakeAllIdentity", "ResultSound", "ErrorIffUnresolved"]),
+                              invariants=["TakeAllIdentity", "ResultSound", "ErrorIffUnresolved", "KeepDimsLaw"]),
                      run=dict(timeout=3000)))
     return jobs
 
@@ -86,7 +86,7 @@ def kind_variants(scn):
         return [["i"] * nd, ["s"] * nd]
     if i["tol"]:
         return [["i"] * nd, ["f"] * nd]
-    return [["i"] * nd, ["f"] * nd, ["s"] * nd]
+    return [["i"] * nd, ["f"] * nd, ["s"] * nd, ["u"] * nd]         # u: unsigned integer labels (uint16)
 
 
 def replay(scn):
@@ -110,6 +110,10 @@ def _even_idx(ix):
     return True
 
 
+def variants_f(variants):
+    return [k for k, off in variants if off == 0 and "f" in k][:1]
+
+
 def replay_take(scn, variants, signature, extra_variants=()):
     """variants: lists of label kinds (one per dimension).  extra_variants: dicts(kinds, idx_kinds, mixed) where the index
     values are encoded with another kind than the axis (e.g. fractional slice bounds on an integer axis)"""
@@ -121,6 +125,8 @@ def replay_take(scn, variants, signature, extra_variants=()):
     calls = 0
     # numeric variants are replayed a second time with shifted labels so that 0 and negative labels occur
     variants = [(k, 0) for k in variants] + [(k, off) for k, off in zip(variants, (-4, -2, -6)) if "s" not in k][:1 + len(variants) // 2]
+    # float labels of large magnitude next to each other (1e6, 1e6 + 0.5, ..): equal only if exactly equal
+    variants = variants + [(k, 2000000) for k in variants_f(variants)]
     variants = list(variants) + [(ev, None) for ev in extra_variants]
     for vi, (kinds, off) in enumerate(variants):
         idx_kinds = None
@@ -148,6 +154,8 @@ def replay_take(scn, variants, signature, extra_variants=()):
                 try:
                     if sp in OPTION_SPELLINGS:
                         res = fn(a, tup, tol)
+                    elif sp == "take_keepdims":          # compared with the scenario's `keep` outcome
+                        res = a.take(tup, indexing=mode, keepdims=True)
                     else:
                         res = do_read(a, sp, tup, a_abs["dims"], i["idxs"], tol, A.da)
                     err = None
@@ -157,6 +165,9 @@ def replay_take(scn, variants, signature, extra_variants=()):
                 if prev is not None:
                     A.da.set_option("indexing.by", prev)
             what = None
+            exp = scn["keep"] if (sp == "take_keepdims" and "keep" in scn) else scn["out"]
+            if sp == "take_keepdims" and "keep" not in scn:
+                continue
             if A.snapshot(a) != before:
                 what = "operand modified by a read"
             elif exp["ok"]:
@@ -165,7 +176,7 @@ def replay_take(scn, variants, signature, extra_variants=()):
                 else:
                     try:
                         act = A.project(res, codec)
-                        ek = [kinds[a_abs["dims"].index(d)] for d in exp["val"]["dims"]]
+                        ek = [kinds[a_abs["dims"].index(d)].replace("u", "i") for d in exp["val"]["dims"]]
                         e2 = dict(exp["val"], kinds=ek)
                         what = A.compare(e2, act) or None
                     except A.Unprojectable as e:
